@@ -8,7 +8,11 @@ CHECKS = {}
 def claim(pid, technique, text, note, ref):
     CHECKS[pid] = dict(technique=technique, text=text, note=note, ref=ref)
 
+EXTRA = {}
 exec(open(os.path.join(ROOT, "tools", "claims.py")).read())
+for _pid, _extra in EXTRA.items():
+    if _pid in CHECKS:
+        CHECKS[_pid]["text"] += " " + _extra
 
 props = [json.loads(l) for l in open(os.path.join(ROOT, "properties.jsonl"))]
 checks, na = [], []
